@@ -144,6 +144,8 @@ def t_random(seed, n, nspell, depth):
             exp, ctx = judge(stats, ast, doc, text, "random")
             first = first or (exp, ctx)
         exp, ctx = first
+        if exp is None:
+            return
         classify(stats, ast, ctx, exp, doc)
         ncand = count_candidates(ast, doc)
         nt = (0 < len(exp) < ncand) or bool(ctx.events & {"cmp.nothing", "lt.mixed-or-unordered", "eq.bool-vs-number",
@@ -335,11 +337,23 @@ def tasks(tier, seed):
     for k in range(16):
         ts.append({"name": "random-%d" % k, "fn": "t_random",
                    "kw": {"seed": mix(seed, ID, k), "n": n, "nspell": 3, "depth": depth}})
+    for k in range(4):
+        ts.append({"name": "textfuzz-%d" % k, "fn": "t_textfuzz", "kw": {"seed": mix(seed, ID, "textfuzz", k), "n": 900 if tier == "quick" else 15000}})
     return ts
+
+
+def t_textfuzz(seed, n):
+    """mutated query text classified by the independent RFC 9535 parser + typing checker (vf.textfuzz)"""
+    from .. import textfuzz
+    return textfuzz.task(seed, n, 'filter')
 
 
 def replay(case):
     stats = Stats()
+    if case.get("origin") == "textfuzz":
+        from .. import textfuzz
+        textfuzz.replay_case(stats, case)
+        return stats
     judge(stats, case["ast"], case["doc"], case["text"], case.get("origin", "replay"))
     return stats
 
